@@ -566,7 +566,7 @@ func execC05(c *Case, sc *Script, o *Obs) {
 		if !got.Done {
 			return
 		}
-		if c.X.Fault == "boundary" || c.X.Fault == "concurrent-benign" {
+		if c.X.Fault == "boundary" || c.X.Fault == "concurrent-benign" || strings.HasSuffix(c.X.Ctx, "-early") {
 			return // any value or error is fine: the oracle is "no crash, no hang"
 		}
 		if c.X.Try {
